@@ -32,12 +32,23 @@ theorem notifyRefs_shape (rs added removed : List Nat) (h : List MoveObj) :
     · exact (sameShape_set h r _ (by simp [onAtomsChangedObj])).trans (ih _)
     · exact ih _
 
+theorem notifyParts_shape (rs sizes added removed : List Nat) (h : List MoveObj) :
+    SameShape h (notifyParts rs sizes added removed h) := by
+  induction sizes generalizing added h with
+  | nil => exact notifyRefs_shape _ _ _ _
+  | cons n ns ih =>
+    cases ns with
+    | nil => exact notifyRefs_shape _ _ _ _
+    | cons m ms =>
+      simp only [notifyParts]
+      exact (notifyRefs_shape _ _ _ _).trans (ih _ _)
+
 theorem callKeeps_shape {s s' : State} (k : CallKeeps s s') : SameShape s.heap s'.heap :=
   ⟨k.heap_len, fun r => by simpa [State.obj] using k.kinds r⟩
 
 theorem saveState_shape (sim : Sim) (s : State) : SameShape s.heap (saveState sim s).heap := by
   unfold saveState
-  cases sim.ens <;> simp only [ctxSave] <;> first | exact SameShape.refl _ | exact notifyRefs_shape _ _ _ _
+  cases sim.ens <;> simp only [ctxSave] <;> first | exact SameShape.refl _ | exact notifyParts_shape _ _ _ _ _
 
 theorem revertState_shape (sim : Sim) (s : State) : (revertState sim s).heap = s.heap := by
   unfold revertState
